@@ -55,6 +55,8 @@ pub enum AVal {
     Str(String),
     UInt(u64),
     Float(f64),
+    /// verbatim text (defect injection only; never equal to anything loaded)
+    Raw(String),
 }
 
 impl PartialEq for AVal {
@@ -84,6 +86,7 @@ impl AVal {
             AVal::Str(s) => CharacterData::String(s.clone()),
             AVal::UInt(u) => CharacterData::UnsignedInteger(*u),
             AVal::Float(f) => CharacterData::Float(*f),
+            AVal::Raw(s) => CharacterData::String(s.clone()),
         }
     }
     pub fn to_json(&self) -> Value {
@@ -92,6 +95,7 @@ impl AVal {
             AVal::Str(s) => json!(s),
             AVal::UInt(u) => json!({"uint": u}),
             AVal::Float(f) => json!({"float": format!("{:?}", f)}),
+            AVal::Raw(s) => json!({"raw": s}),
         }
     }
 }
@@ -100,6 +104,8 @@ impl AVal {
 pub enum AContent {
     Elem(ANode),
     Text(AVal),
+    /// verbatim markup (defect injection only)
+    Raw(String),
 }
 
 #[derive(Clone, Debug, PartialEq)]
@@ -109,11 +115,15 @@ pub struct ANode {
     pub attrs: Vec<(AttributeName, AVal)>,
     pub comment: Option<String>,
     pub content: Vec<AContent>,
+    /// defect injection: tag name written instead of `name`
+    pub raw_name: Option<String>,
+    /// defect injection: extra attributes written verbatim (name, quoted value text)
+    pub raw_attrs: Vec<(String, String)>,
 }
 
 impl ANode {
     pub fn new(name: ElementName, etype: ElementType) -> ANode {
-        ANode { name, etype, attrs: vec![], comment: None, content: vec![] }
+        ANode { name, etype, attrs: vec![], comment: None, content: vec![], raw_name: None, raw_attrs: vec![] }
     }
     pub fn children(&self) -> impl Iterator<Item = &ANode> {
         self.content.iter().filter_map(|c| match c {
@@ -148,6 +158,7 @@ impl ANode {
                         .map(|c| match c {
                             AContent::Elem(e) => e.to_json(),
                             AContent::Text(t) => json!({"text": t.to_json()}),
+                            AContent::Raw(t) => json!({"raw": t}),
                         })
                         .collect(),
                 ),
@@ -171,7 +182,7 @@ impl ANode {
             return Some(format!("{here}: comment {:?} vs {:?}", self.comment, other.comment));
         }
         if self.content.len() != other.content.len() {
-            let f = |n: &ANode| n.content.iter().map(|c| match c { AContent::Elem(e) => e.name.to_string(), AContent::Text(t) => format!("{:?}", t) }).collect::<Vec<_>>();
+            let f = |n: &ANode| n.content.iter().map(|c| match c { AContent::Elem(e) => e.name.to_string(), AContent::Text(t) => format!("{:?}", t), AContent::Raw(t) => format!("raw {:?}", t) }).collect::<Vec<_>>();
             return Some(format!("{here}: {} content items vs {}: {:?} vs {:?}", self.content.len(), other.content.len(), f(self), f(other)));
         }
         for (i, (a, b)) in self.content.iter().zip(other.content.iter()).enumerate() {
@@ -694,6 +705,7 @@ impl<'a, 't> Renderer<'a, 't> {
                 self.push(e.to_str())
             }
             AVal::Str(s) => self.escape_into(s, in_attr, pattern),
+            AVal::Raw(s) => self.push(s),
             AVal::UInt(u) => {
                 self.flags.nonstring = true;
                 let how = if self.plain { 0 } else { self.style.below(8) };
@@ -840,9 +852,17 @@ impl<'a, 't> Renderer<'a, 't> {
             self.between(indent);
         }
         self.out.push(b'<');
-        self.push(n.name.to_str());
+        let tag: String = n.raw_name.clone().unwrap_or_else(|| n.name.to_str().to_string());
+        self.push(&tag);
         let et = n.etype;
         self.attrs(&n.attrs, &|a| et.find_attribute_spec(a).map(|s| s.spec));
+        for (rn, rv) in &n.raw_attrs {
+            self.push(" ");
+            self.push(rn);
+            self.push("=\"");
+            self.push(rv);
+            self.push("\"");
+        }
         if !self.plain && self.style.chance(30) {
             self.push(" ");
         }
@@ -851,7 +871,7 @@ impl<'a, 't> Renderer<'a, 't> {
                 self.push("/>");
             } else {
                 self.push("></");
-                self.push(n.name.to_str());
+                self.push(&tag);
                 self.push(">");
             }
             return;
@@ -862,13 +882,19 @@ impl<'a, 't> Renderer<'a, 't> {
             ContentMode::Characters => {
                 let preserve = matches!(et.chardata_spec(), Some(CharacterDataSpec::String { preserve_whitespace: true, .. }));
                 let pattern = matches!(et.chardata_spec(), Some(CharacterDataSpec::Pattern { .. }));
-                if let Some(AContent::Text(v)) = n.content.first() {
-                    if !preserve {
-                        self.pad();
-                    }
-                    self.value_text(v, None, pattern);
-                    if !preserve {
-                        self.pad();
+                for c in &n.content {
+                    match c {
+                        AContent::Text(v) => {
+                            if !preserve {
+                                self.pad();
+                            }
+                            self.value_text(v, None, pattern);
+                            if !preserve {
+                                self.pad();
+                            }
+                        }
+                        AContent::Raw(r) => self.push(r),
+                        AContent::Elem(e) => self.node(e, indent + 1, true),
                     }
                 }
             }
@@ -882,13 +908,16 @@ impl<'a, 't> Renderer<'a, 't> {
                             self.pad();
                         }
                         AContent::Elem(e) => self.node(e, indent + 1, true),
+                        AContent::Raw(r) => self.push(r),
                     }
                 }
             }
             _ => {
                 for c in &n.content {
-                    if let AContent::Elem(e) = c {
-                        self.node(e, indent + 1, false);
+                    match c {
+                        AContent::Elem(e) => self.node(e, indent + 1, false),
+                        AContent::Raw(r) => self.push(r),
+                        AContent::Text(v) => self.value_text(v, None, false),
                     }
                 }
                 if !self.plain && self.style.chance(12) {
@@ -900,7 +929,7 @@ impl<'a, 't> Renderer<'a, 't> {
             }
         }
         self.push("</");
-        self.push(n.name.to_str());
+        self.push(&tag);
         // note: no whitespace before '>' of an end tag; the loader rejects "</X >" (outside C01's domain)
         self.push(">");
     }
@@ -956,8 +985,10 @@ impl<'a, 't> Renderer<'a, 't> {
         } else {
             self.push(">");
             for c in &d.root.content {
-                if let AContent::Elem(e) = c {
-                    self.node(e, 1, false);
+                match c {
+                    AContent::Elem(e) => self.node(e, 1, false),
+                    AContent::Raw(r) => self.push(r),
+                    AContent::Text(v) => self.value_text(v, None, false),
                 }
             }
             self.between(0);
